@@ -67,6 +67,7 @@ func c09(r *core.Run) {
 	r.Rule("C09/R3", "no silent overwrite: the Bids write is on committing paths only under Found(bid)=false or after a module->account refund of the loaded bid's price to the signer")
 	r.Rule("C09/R4", "escrow-out consumes: Cancel/Accept pay an amount ⊵ loaded Bids.Price only to the signer and every committing path after the send deletes the bid with the key it was loaded by")
 	r.Rule("C09/R6", "every delete of a Bids record in an rns handler is preceded on all paths by a module->account send of that record's price")
+	r.Rule("C09/R8", "what can be escrowed can be paid out: every stateless check MsgCancelBid / MsgAcceptBid apply to the name is also applied by MsgBid (a bid placed under a name that the closing messages reject can never be cancelled or accepted)")
 	r.Rule("C09/R7", "a genesis import of the rns module writes every element of its lists (in particular every open bid): the module account keeps the escrow across the import, so a dropped bid record leaves coins nobody can claim")
 	r.Rule("C09/R5", "bank errors propagate to a failing return of the handler")
 	hs, err := p.Handlers()
@@ -93,6 +94,7 @@ func c09(r *core.Run) {
 	r.Floor("C09/R1", nSites, 8, "rns bank call sites (per handler)")
 	// R7: a genesis import keeps every open bid (the escrow itself lives in the bank module and survives the import)
 	genesisImportsAll(r, "C09/R7", "rns")
+	validatorsIncluded(r, "C09/R8", "x/rns/types", "Name", "MsgBid", []string{"MsgCancelBid", "MsgAcceptBid"})
 	// R6: every delete of a bid record, in any rns handler, follows a payout of that record's price
 	nDelB := 0
 	for _, h := range hs {
